@@ -14,6 +14,7 @@ BASELINE = "cd /repo && /venv/bin/python -m pytest -ra -q -p no:cacheprovider --
 
 
 def main():
+    from sa import common
     props = [json.loads(l)["id"] for l in open("/verif/properties.jsonl")]
     checks, na, served = [], [], []
     for pid in props:
@@ -34,7 +35,7 @@ def main():
             "evidence_file": "/verif/evidence/%s.json" % pid,
             "replay_cmd_template": "/venv/bin/python -m sa.check %s --replay {path}" % pid,
             "engine": "sa",
-            "level_claimed": {"category": level, "text": mod.EXPLANATION, "design_ref": "DESIGN.md §3 " + pid},
+            "level_claimed": {"category": level, "text": mod.EXPLANATION + common.EXPLANATION % {"p": pid}, "design_ref": "DESIGN.md §3 " + pid},
             "level_note": getattr(mod, "LEVEL_NOTE", "Decides only the named structural clauses (necessary conditions); "
                                   "the behavioural remainder listed as 'misses' in DESIGN.md is not decided. Trusted: the "
                                   "in-house front end/CFG/normal-form engine under /verif/sa, python's ast, and: ")
